@@ -24,7 +24,7 @@ from harness import core
 from harness import lib_c02c14 as L
 
 FEAT = {"inline": False, "init": True, "unused": True, "func": True, "func_in_body": True, "nested_func": True,
-        "vary": True, "collide": True, "rmax": True, "mixed": True}
+        "vary": True, "collide": True, "rmax": True, "mixed": True, "generic": True}
 
 
 # ------------------------------------------------------------------ (a) structure of the real build
@@ -281,7 +281,7 @@ def compare_runtime(spec, m, feeds, out):
 def judge(spec, rng, feeds_first=None):
     """Model-free C14 oracle on one spec. -> dict(status, fails=[(key, what)], info)"""
     out = {"fails": [], "runtime": None}
-    expected_raise = L.distinguishable_bodies(spec)
+    expected_raise = L.distinguishable_bodies(spec) + L.generic_bodies_differ(spec)
     st, m = L.build_spec(spec)
     out["status"] = st
     if st == "err":
@@ -404,6 +404,16 @@ HAND_SPECS = [
      "funcs": [{"name": "f", "domain": "dom", "nin": 1, "nout": 1,
                 "body": {"stmts": [["op", "relu", 17, [0]]], "outs": [1]}}],
      "models": []},
+    # a dtype-generic function (its constant has the argument's dtype) called at float32 and float64: must raise
+    {"args": ["f"], "inputs": [["x", 0]],
+     "stmts": [["callg", 0, 0, "f32"], ["callg", 0, 1, "f64"]],
+     "outputs": [["z", 2]], "drop": False, "funcs": [], "models": [],
+     "generics": [{"name": "g", "domain": "gen.dom", "kind": "addconst"}]},
+    # ... the same body whatever the dtype: one definition, legitimately shared
+    {"args": ["f"], "inputs": [["x", 0]],
+     "stmts": [["callg", 0, 0, "f32"], ["callg", 0, 1, "f64"]],
+     "outputs": [["z", 2]], "drop": False, "funcs": [], "models": [],
+     "generics": [{"name": "g", "domain": "gen.dom", "kind": "mulself"}]},
     # mixed opset versions inside a function body
     {"args": ["f"], "inputs": [["x", 0]],
      "stmts": [["call", 0, [0]], ["op", "identity", 21, [1]]],
